@@ -778,6 +778,10 @@ impl<'a> Sim<'a> {
                 let snap = node.storage.latest_snapshot();
                 let fut = crate::service::mempool::check_tx(bytes.clone(), snap, &node.mempool, world::metrics());
                 let out = AssertUnwindSafe(fut).catch_unwind().await;
+                // the mempool breaks priority ties by arrival time (and otherwise by HashMap
+                // iteration order, which the simulator cannot seed): give every arrival its own
+                // virtual instant
+                tokio::time::advance(std::time::Duration::from_millis(1)).await;
                 match out {
                     Ok(o) => {
                         let dbg = format!("{o:?}");
